@@ -26,7 +26,7 @@ func init() {
 func runC10(c *eng.Ctx, tier string) {
 	p := c.P
 	ns := p.Func(setecPkg, "NewStore")
-	init := p.Method(setecPkg, "Store", "initializeActive")
+	init := anchor(p, setecPkg, "(*Store).initializeActive")
 	if ns == nil || init == nil {
 		c.Undecided("anchor", nil, 0, "setec.NewStore / (*Store).initializeActive", "anchors do not resolve")
 		return
@@ -39,7 +39,7 @@ func runC10(c *eng.Ctx, tier string) {
 	// the validity gate of the loaded cache (C13's rule)
 	include(c, "R-C10-9", c13Validity)
 	// R-C10-7
-	for _, f := range []*ssa.Function{ns, init, p.Method(setecPkg, "StoreConfig", "secretNames"), p.Method(setecPkg, "Store", "loadCache"), p.Method(setecPkg, "Store", "isActiveSetValid")} {
+	for _, f := range []*ssa.Function{ns, init, anchor(p, setecPkg, "StoreConfig.secretNames"), anchor(p, setecPkg, "(*Store).loadCache"), anchor(p, setecPkg, "(*Store).isActiveSetValid")} {
 		if f == nil {
 			continue
 		}
@@ -84,7 +84,7 @@ func c10Validation(c *eng.Ctx, ns *ssa.Function) {
 		}
 		if v, isNil, isE := cond.ErrCheck(); isE && isNil {
 			if call, _ := eng.TupleCall(v); call != nil {
-				if cal := eng.Callee(&call.Call); cal != nil && cal.Name() == "secretNames" {
+				if cal := eng.Callee(&call.Call); cal != nil && cal == anchor(c.P, setecPkg, "StoreConfig.secretNames") {
 					namesOK = true
 					namesCall = call
 				}
@@ -125,7 +125,7 @@ func c10Validation(c *eng.Ctx, ns *ssa.Function) {
 		return "reachable: " + p.PathStr(path)
 	}())
 	// all error returns before the store exists carry non-nil errors (implied by types) -- and secretNames rejects empty names
-	sn := p.Method(setecPkg, "StoreConfig", "secretNames")
+	sn := anchor(p, setecPkg, "StoreConfig.secretNames")
 	if sn == nil {
 		c.Undecided("R-C10-1", nil, 0, "setec.StoreConfig.secretNames", "anchor does not resolve")
 		return
